@@ -47,17 +47,32 @@ func TestVerif(t *testing.T) {
 	defer r.Close()
 	selfCheckClasses(t)
 
-	nA := r.N(1000, 6000)
+	// C15_GROUPS (development aid only): run a subset of the groups, e.g. "DE"
+	grp := func(g string, n int) int {
+		if only := os.Getenv("C15_GROUPS"); only != "" && !strings.Contains(only, g) {
+			return 0
+		}
+		return n
+	}
+	nA := grp("A", r.N(1000, 6000))
 	for i := 0; i < nA; i++ {
 		r.Run(i, fmt.Sprintf("direct-%d", i), func(c *rep.Case) { runDirect(t, r, c, i, "") })
 	}
-	nB := r.N(256, 2000)
+	nB := grp("B", r.N(256, 2000))
 	for i := 0; i < nB; i++ {
 		r.Run(groupB+i, fmt.Sprintf("e2e-%d", i), func(c *rep.Case) { runE2E(t, r, c, groupB+i) })
 	}
-	nC := r.N(400, 3000)
+	nC := grp("C", r.N(400, 3000))
 	for i := 0; i < nC; i++ {
 		r.Run(groupC+i, fmt.Sprintf("tablekinds-%d", i), func(c *rep.Case) { runDirect(t, r, c, groupC+i, "tk_") })
+	}
+	nD := grp("D", r.N(192, 960))
+	for i := 0; i < nD; i++ {
+		r.Run(groupD+i, fmt.Sprintf("actions-%d", i), func(c *rep.Case) { runDirect(t, r, c, groupD+i, "act_") })
+	}
+	nE := grp("E", r.N(72, 384))
+	for i := 0; i < nE; i++ {
+		r.Run(groupE+i, fmt.Sprintf("actions-e2e-%d", i), func(c *rep.Case) { runE2E(t, r, c, groupE+i) })
 	}
 }
 
@@ -122,6 +137,12 @@ type cfgCase struct {
 	uRef, pRef tref
 	decoys     []name // addresses usable inside display names / comments
 	hot        []name // foreign addresses that share the local part of the current identity
+
+	// groups D / E (actions_test.go): the action directives as written; nil =
+	// all absent (default reject). baseText is the block without them.
+	acts            map[string]actionSpec
+	baseText        string
+	forcedDirective string
 }
 
 // quote wraps a configuration argument in quotes; the generated names contain
@@ -911,7 +932,8 @@ func (k *tallies) flush(r *rep.Reporter, pfx string) {
 func runDirect(t *testing.T, r *rep.Reporter, c *rep.Case, idx int, pfx string) {
 	var p *prng.R
 	var cfg *cfgCase
-	if pfx == "" {
+	withActions := pfx == "act_"
+	if pfx == "" || (withActions && (idx/3)%3 != 2) {
 		p = prng.New(r.Seed(), uint64(idx), "c15")
 		cfg = genConfig(p)
 	} else {
@@ -929,14 +951,39 @@ func runDirect(t *testing.T, r *rep.Reporter, c *rep.Case, idx int, pfx string) 
 			return path
 		})
 	}
-	mod, err := authorize_sender.New("check.authorize_sender", fmt.Sprintf("c15chk_%d_%d", r.Seed(), idx), nil, nil)
-	if err != nil {
-		t.Fatalf("harness: %v", err)
+	if withActions {
+		// group D: every (table kind, normaliser) family of groups A and C with
+		// the action directives written out; drawn from a stream of their own
+		cfg.genActions(prng.New(r.Seed(), uint64(idx), "c15-actions"), idx-groupD)
 	}
-	if err := mx.InitModule(mod, cfg.text, nil); err != nil {
-		t.Fatalf("harness: authorize_sender init: %v\n%s", err, cfg.text)
+	newCheck := func(text, tag string) module.Check {
+		mod, err := authorize_sender.New("check.authorize_sender", fmt.Sprintf("c15chk%s_%d_%d", tag, r.Seed(), idx), nil, nil)
+		if err != nil {
+			t.Fatalf("harness: %v", err)
+		}
+		if err := mx.InitModule(mod, text, nil); err != nil {
+			t.Fatalf("harness: authorize_sender init: %v\n%s", err, text)
+		}
+		return mod.(module.Check)
 	}
-	chk := mod.(module.Check)
+	chk := newCheck(cfg.text, "")
+	// attribution only (never a verdict): the same configuration with the
+	// action directives left out, built when a violation is about to be reported
+	var twin module.Check
+	underDefaults := func(meta *module.MsgMetadata, call func(st module.CheckState) module.CheckResult) bool {
+		if cfg.acts == nil {
+			return false
+		}
+		if twin == nil {
+			twin = newCheck(cfg.baseText, "twin")
+		}
+		st, err := twin.CheckStateForMsg(context.Background(), meta)
+		if err != nil {
+			return false
+		}
+		defer st.Close()
+		return call(st).Reject
+	}
 	var k tallies
 	defer k.flush(r, pfx)
 	shapes := map[string]bool{}
@@ -977,8 +1024,9 @@ func runDirect(t *testing.T, r *rep.Reporter, c *rep.Case, idx int, pfx string) 
 		wit := func() any {
 			return map[string]any{"config": cfg.text, "message": m, "header_text": raw, "header_facts": hf,
 				"user_values": cfg.userValues(user.canon()),
-				"check_sender": map[string]any{"pass": passed(rs), "reason": reasonStr(rs)},
-				"check_body":   map[string]any{"pass": passed(rb), "reason": reasonStr(rb)}}
+				"check_sender": map[string]any{"reject": rs.Reject, "quarantine": rs.Quarantine, "reason": reasonStr(rs)},
+				"check_body":   map[string]any{"reject": rb.Reject, "quarantine": rb.Quarantine, "reason": reasonStr(rb)},
+				"actions":      cfg.actsWitness()}
 		}
 		k.sender++
 		k.body++
@@ -996,28 +1044,67 @@ func runDirect(t *testing.T, r *rep.Reporter, c *rep.Case, idx int, pfx string) 
 		}
 		if !authenticated {
 			k.unauth++
-			if passed(rs) {
-				c.Violation("unauthenticated/accepted/stage=mail-from", "CheckSender passed although the connection is not authenticated", wit())
+			vs, gs := cfg.judgeDirect(rs, dirsUnauthMail...)
+			vb, gb := cfg.judgeDirect(rb, dirsUnauthHeader...)
+			if vs == actViolated {
+				c.Violation(actSigDirect(cfg, "unauthenticated/accepted/stage=mail-from", "unauthenticated/stage=mail-from", gs, dirsUnauthMail,
+					underDefaults(meta, func(st module.CheckState) module.CheckResult { return st.CheckSender(ctx, m.MailFrom) })),
+					"CheckSender passed although the connection is not authenticated (unauth_action: "+cfg.actShape("unauth_action")+")", wit())
 			}
-			if passed(rb) {
-				c.Violation("unauthenticated/accepted/stage=header", "CheckBody passed although the connection is not authenticated", wit())
+			if vb == actViolated {
+				c.Violation(actSigDirect(cfg, "unauthenticated/accepted/stage=header", "unauthenticated/stage=header", gb, dirsUnauthHeader,
+					underDefaults(meta, func(st module.CheckState) module.CheckResult {
+						return st.CheckBody(ctx, hdr, buffer.MemoryBuffer{Slice: []byte("body\r\n")})
+					})),
+					"CheckBody passed although the connection is not authenticated", wit())
 			}
-			if !passed(rs) && !passed(rb) {
+			if vs == actHeld && (vb == actHeld || vb == actNotJudged) {
 				k.unauthRefused++
 				nontrivial = true
+				if gs == "reject" {
+					cfg.countShapes(r.Count, pfx+"refused_", dirsUnauthMail...)
+				} else {
+					cfg.countShapes(r.Count, pfx+"flagged_", dirsUnauthMail...)
+				}
 			}
-			shapes["unauth"] = true
+			if vs == actNotJudged {
+				cfg.countShapes(r.Count, pfx+"not_judged_", dirsUnauthMail...)
+			}
+			if cfg.acts == nil {
+				shapes["unauth"] = true
+			} else {
+				shapes["unauth/"+gs+"/"+gb] = true
+			}
 			continue
 		}
+		gN := cfg.govern(dirsNoMatch...)
 		// envelope clause
-		if passed(rs) {
+		mfFailing := m.MFJudged && !m.MFEntitled
+		vmf := actNotJudged
+		if mfFailing {
+			vmf, _ = cfg.judgeDirect(rs, dirsNoMatch...)
+		}
+		switch {
+		case mfFailing && vmf == actNotJudged:
+			// no_match_action / err_action ignore: the administrator's choice
+			cfg.countShapes(r.Count, pfx+"not_judged_", dirsNoMatch...)
+		case mfFailing && vmf == actViolated && (gN != "reject" || underDefaults(meta, func(st module.CheckState) module.CheckResult { return st.CheckSender(ctx, m.MailFrom) })):
+			// the configured action is what lets it through (or fails to flag it)
+			c.Violation(actSigDirect(cfg, "mail-from/accepted-not-entitled", "mail-from/not-entitled", gN, dirsNoMatch, true),
+				fmt.Sprintf("CheckSender passed MAIL FROM %q (class %s) for user %q (class %s) who is not entitled to it; the same configuration without the action directives refuses it", m.MailFrom, m.MFClass, m.AuthUser, m.UserClass), wit())
+		case mfFailing && gN != "reject":
+			// flagged (quarantine or reject) as configured
+			k.senderRejectForeign++
+			nontrivial = true
+			cfg.countShapes(r.Count, pfx+"flagged_", dirsNoMatch...)
+		case !rs.Reject:
 			k.senderPass++
 			if m.MFJudged && !m.MFEntitled {
 				cause := m.MFRelation
 				if m.mfAddr.local != "" && m.MailFrom != m.mfAddr.canon() && !strings.Contains(cause, "-spelling-not-folded-by-") {
 					// attribution: is the canonical spelling refused?
 					st2, _ := chk.CheckStateForMsg(ctx, meta)
-					if !passed(st2.CheckSender(ctx, m.mfAddr.canon())) {
+					if st2.CheckSender(ctx, m.mfAddr.canon()).Reject {
 						cause += "/only-with-spelling=" + m.MFKinds
 					}
 					st2.Close()
@@ -1031,7 +1118,7 @@ func runDirect(t *testing.T, r *rep.Reporter, c *rep.Case, idx int, pfx string) 
 					r.Count(pfx+"checksender_pass_entitled_identity_"+identityShape(user), 1)
 				}
 			}
-		} else if m.MFEntitled {
+		case m.MFEntitled:
 			k.senderRejectEntitled++
 			if cfg.authNorm == "auto" && cfg.fromNorm == "auto" {
 				r.Count(pfx+"checksender_reject_entitled_under_default_normalizers", 1)
@@ -1039,9 +1126,10 @@ func runDirect(t *testing.T, r *rep.Reporter, c *rep.Case, idx int, pfx string) 
 					fmt.Printf("DEBUG reject-entitled user=%q mf=%q reason=%s cfg=%q\n", m.AuthUser, m.MailFrom, reasonStr(rs), cfg.text)
 				}
 			}
-		} else if m.MFJudged {
+		case m.MFJudged:
 			k.senderRejectForeign++
 			nontrivial = true
+			cfg.countShapes(r.Count, pfx+"refused_", dirsNoMatch...)
 			if strings.Contains(m.MFRelation, "-spelling-not-folded-by-") {
 				r.Count(pfx+"checksender_reject_spelling_variant_the_normalizer_does_not_fold", 1)
 			}
@@ -1053,23 +1141,41 @@ func runDirect(t *testing.T, r *rep.Reporter, c *rep.Case, idx int, pfx string) 
 			}
 		}
 		// header clause
+		hdrFailing := hf.Judged && !hf.Allowed
+		vh := actNotJudged
+		if hdrFailing {
+			vh, _ = cfg.judgeDirect(rb, dirsNoMatch...)
+		}
+		callBody := func(st module.CheckState) module.CheckResult {
+			return st.CheckBody(ctx, hdr, buffer.MemoryBuffer{Slice: []byte("body\r\n")})
+		}
 		switch {
 		case !hf.Judged:
 			k.bodyUnjudged++
-		case passed(rb) && !hf.Allowed:
+		case hdrFailing && vh == actNotJudged:
+			cfg.countShapes(r.Count, pfx+"not_judged_", dirsNoMatch...)
+		case hdrFailing && vh == actViolated && (gN != "reject" || underDefaults(meta, callBody)):
+			c.Violation(actSigDirect(cfg, "header/accepted-foreign-author", "header/foreign-author", gN, dirsNoMatch, true),
+				fmt.Sprintf("CheckBody passed a message whose From carries %d address(es) user %q is not entitled to and no entitled Sender (%s); the same configuration without the action directives refuses it", hf.ForeignFrom, m.AuthUser, hf.Cause), wit())
+		case hdrFailing && vh == actViolated:
 			c.Violation("header/accepted-foreign-author/"+hf.Cause,
 				fmt.Sprintf("CheckBody passed a message whose From carries %d address(es) user %q is not entitled to and no entitled Sender (%s)", hf.ForeignFrom, m.AuthUser, hf.Cause), wit())
-		case passed(rb):
+		case hdrFailing:
+			k.bodyRejectForeign++
+			nontrivial = true
+			if gN == "reject" {
+				cfg.countShapes(r.Count, pfx+"refused_", dirsNoMatch...)
+			} else {
+				cfg.countShapes(r.Count, pfx+"flagged_", dirsNoMatch...)
+			}
+			if cfg.tk && (strings.Contains(hf.Cause, "/local-part-of-address-shaped-identity") || strings.Contains(hf.Cause, "/address-inside-quoted-local-part")) {
+				r.Count(pfx+"checkbody_reject_author_sharing_local_part_with_address_shaped_identity", 1)
+			}
+		case !rb.Reject:
 			k.bodyPass++
 			nontrivial = true
 			if hf.ForeignFrom > 0 {
 				k.bodyPassViaSender++
-			}
-		case !hf.Allowed:
-			k.bodyRejectForeign++
-			nontrivial = true
-			if cfg.tk && (strings.Contains(hf.Cause, "/local-part-of-address-shaped-identity") || strings.Contains(hf.Cause, "/address-inside-quoted-local-part")) {
-				r.Count(pfx+"checkbody_reject_author_sharing_local_part_with_address_shaped_identity", 1)
 			}
 		default:
 			k.bodyRejectAllowed++
@@ -1083,7 +1189,7 @@ func runDirect(t *testing.T, r *rep.Reporter, c *rep.Case, idx int, pfx string) 
 				r.Distinct("address_spellings", b.Kinds)
 			}
 		}
-		if (idx == 0 || idx == groupC) && mi < 3 {
+		if (idx == 0 || idx == groupC || idx == groupD+14) && mi < 3 {
 			r.Sample(map[string]any{"config": cfg.text, "message": m, "header_text": raw, "sender_pass": passed(rs), "body_pass": passed(rb)})
 		}
 	}
@@ -1101,6 +1207,13 @@ func runDirect(t *testing.T, r *rep.Reporter, c *rep.Case, idx int, pfx string) 
 	grp := "A/"
 	if cfg.tk {
 		grp = "C/"
+	}
+	if withActions {
+		grp = "D/" + grp + cfg.actShape("unauth_action") + "," + cfg.actShape("no_match_action") + "," + cfg.actShape("err_action") + "/"
+		for _, d := range actionDirectives {
+			r.Count(pfx+"configs_"+d+"_"+cfg.actShape(d), 1)
+		}
+		r.Distinct("action_shape_triples", cfg.actShape("unauth_action")+","+cfg.actShape("no_match_action")+","+cfg.actShape("err_action"))
 	}
 	c.Done(grp+cfg.uKind+"/"+cfg.pKind+"/"+cfg.authNorm+"/"+cfg.fromNorm+"/"+strings.Join(ss, ";"), nontrivial)
 }
